@@ -424,6 +424,43 @@ CollapseRel(pre, he, post, ret, gV) ==
      /\ {{back(q) : q \in OrientedTet(post, c)} : c \in LiveC(post)} = expect
      /\ ret \in LiveV(post) /\ At(gV, ret) = b
 
+(* contract of the vertex-based cell constructors for AddTetRel: a simplicial  *)
+(* complex, four distinct live vertices, no cell on them yet, and none of the  *)
+(* four halffaces the new tetrahedron needs belongs to a cell                  *)
+AddTetInContract(pre, vs) ==
+  /\ TetComplex(pre) /\ IsSeqOfLen(vs, 4) /\ Cardinality(Rng(vs)) = 4 /\ Rng(vs) \subseteq LiveV(pre)
+  /\ \A c \in LiveC(pre) : CellVertSet(pre, c) # Rng(vs)
+  /\ \A tri \in {<<vs[1], vs[2], vs[3]>>, <<vs[1], vs[3], vs[4]>>, <<vs[1], vs[4], vs[2]>>, <<vs[2], vs[4], vs[3]>>} :
+        \A hf \in LiveHF(pre) : HFVerts(pre, hf) \in Rots(tri) => CellsOfHF(pre, hf) = {}
+
+(* ---------------- C11 on the specialised kernels (handle-based calls) --- *)
+(* add_face(halfedges, check): rejected iff the valence is wrong or (with    *)
+(* topology check) the list is not a closed loop; rejected => invalid handle *)
+(* and nothing observable changed; accepted => exactly one face appended     *)
+(* with exactly the given halfedges.  n = 3 (tet) / 4 (hex).                 *)
+ValAddFaceC11(pre, n, c, post, ret) ==
+  IF Len(c.l) # n \/ (c.f /\ ~ClosedLoop(pre, c.l))
+  THEN ret = -1 /\ Unchanged(pre, post)
+  ELSE ret = Len(pre.faces) /\ AppendRel(pre, post, "F", c.l)
+(* add_halfface(halfedges, check): an invalid handle and nothing changed, or *)
+(* an existing halfface that contains the first two halfedges and nothing    *)
+(* changed, or exactly one triangle appended whose halfface 0 is returned    *)
+AddHalffaceRel(pre, c, post, ret) ==
+  IF ret < 0 THEN Unchanged(pre, post)
+  ELSE IF ret < NHF(pre)
+       THEN /\ Unchanged(pre, post) /\ ret \in LiveHF(pre)
+            /\ {c.l[1], c.l[2]} \subseteq Rng(HFHes(pre, ret))
+       ELSE /\ ret = 2 * Len(pre.faces) /\ Len(c.l) = 3 /\ (c.f => ClosedLoop(pre, c.l))
+            /\ AppendRel(pre, post, "F", c.l)
+(* add_cell(halffaces, check) of the tetrahedral kernel: accepted iff four   *)
+(* triangles and (with topology check) a closed surface on four vertices     *)
+TetAddCellC11(pre, c, post, ret) ==
+  LET l == c.l
+      accept == /\ Len(l) = 4 /\ \A i \in 1 .. 4 : Len(At(pre.faces, Full(l[i]))) = 3
+                /\ c.f => (ClosedSurface(pre, l) /\ Cardinality(UNION {Rng(HFVerts(pre, l[i])) : i \in 1 .. 4}) = 4)
+  IN IF accept THEN ret = Len(pre.cells) /\ AppendRel(pre, post, "C", l)
+     ELSE ret = -1 /\ Unchanged(pre, post)
+
 (* ------------- C03 through collapse_edge: CollapsePropsFollow ---------- *)
 (* Property values stay attached through the collapse.  Asserted is only    *)
 (* what the statement clearly demands; the bijections are those of          *)
